@@ -97,6 +97,25 @@ func (e *Engine) verifyUnit(fn *ssa.Function, ct *FuncContract, alias []string, 
 	// postconditions at every return
 	sig := fn.Signature
 	rn, rtys := resultNames(sig)
+	if len(fr.rets) > 6 {
+		// many return points: check the postconditions once on the merged state
+		var ins []edgeState
+		for _, r := range fr.rets {
+			ins = append(ins, edgeState{st: r.st})
+		}
+		m := vc.merge(ins, "allrets", x.cellType)
+		var outs []Val
+		for k := range rtys {
+			t := fr.rets[len(fr.rets)-1].results[k].T
+			for i := len(fr.rets) - 2; i >= 0; i-- {
+				if fr.rets[i].results[k].T != t {
+					t = fmt.Sprintf("(ite %s %s %s)", fr.rets[i].st.pc, fr.rets[i].results[k].T, t)
+				}
+			}
+			outs = append(outs, Val{T: vc.freshDef("result", vc.sortOf(rtys[k]), t)})
+		}
+		fr.rets = []retInfo{{st: m, results: outs, pos: fr.rets[0].pos}}
+	}
 	for ri, ret := range fr.rets {
 		ctx := x.ownCtx(fr, ret.st, false)
 		ctx.resultAlloc = fr.entry.alloc
